@@ -1,6 +1,7 @@
 import Driver.Common
 import Driver.RangesIO
 import Lumina.Model.FetchRange
+import Lumina.Model.SyncerGate
 import Lumina.Spec.C24
 
 open Lumina.Util Lumina.Model.Ranges Lumina.Model.FetchRange Driver.RangesIO
@@ -31,6 +32,25 @@ def step (_ : Unit) (line : String) : Unit × String :=
       | .ok st, .ok pr => ((), showRes (nextBatch h st pr l))
       | _, _ => ((), "load-err")
     | _, _, _, _ => ((), "bad-op")
+  | "worker" :: _ =>
+    -- the real `Worker::fetch_next_batch` (all gates) + the real store's `insert` of the batch
+    match natArg? ws "head", rangesArg? ws "stored", rangesArg? ws "pruned", natArg? ws "limit" with
+    | some h, some st, some pr, some l =>
+      match fromVec st, fromVec pr with
+      | .ok st, .ok pr =>
+        let i : Lumina.Model.SyncerGate.GateIn :=
+          { ongoing := false, connectedPeers := 1, head := some h, stored := st, pruned := pr,
+            sampled := [], batchSize := l, slowSync := none, inWindow := fun _ => true }
+        match Lumina.Model.SyncerGate.fetchDecision 50 i with
+        | .ok (.request r) =>
+          let ins := match checkInsertionConstraints st r with
+            | .ok _ => "ok"
+            | .error _ => "err"
+          ((), s!"req {showRange r} insert={ins}")
+        | .ok (.idle _) => ((), "none")
+        | .error e => ((), showErr e)
+      | _, _ => ((), "load-err")
+    | _, _, _, _ => ((), "bad-op")
   | _ => ((), "bad-op")
 
 /-- set union of two canonical values, independent of the model: merge of sorted range lists -/
@@ -48,6 +68,17 @@ def unionFuel : Nat → List Range → List Range → List Range
 
 def union (a b : List Range) : List Range := unionFuel (2 * (a.length + b.length) + 2) a b
 
+/-- the one known class: every clause holds except (c), the highest synced height lies above
+    the head, and the batch is non-empty and ends above the head -/
+def knownClass (head : Nat) (synced : List Range) (b : Range) (fs : List String) : Bool :=
+  fs == ["head"] && decide (b.1 ≤ b.2) && decide (head < b.2) &&
+  (match Lumina.Spec.C24.top synced with
+   | some t => decide (head < t) && decide (b.2 < t)
+   | none => false)
+
+def knownMsg : String :=
+  "specfail C24/batch-above-head-store-ahead clause (c) fails: the synced ranges reach above the network head"
+
 def verdict (head : Nat) (synced : List Range) (limit : Nat) (os : List String) : String :=
   match os with
   | [o] =>
@@ -57,17 +88,32 @@ def verdict (head : Nat) (synced : List Range) (limit : Nat) (os : List String) 
       else
         let fs := Lumina.Spec.C24.failing head synced limit b
         if fs.isEmpty then "specok"
-        else
-          let ahead := match Lumina.Spec.C24.top synced with
-            | some t => decide (head < t)
-            | none => false
-          -- the one known class: the store is ahead of the subjective head and the gap below the
-          -- highest synced range lies (partly) above the head; every other clause holds
-          if fs == ["head"] && ahead then
-            "specfail C24/batch-above-head-store-ahead clause (c) fails: the synced ranges reach above the network head"
-          else s!"specfail C24/{"+".intercalate fs} failing clauses: {fs}"
+        else if knownClass head synced b fs then knownMsg
+        else s!"specfail C24/{"+".intercalate fs} failing clauses: {fs}"
     | none => "specfail C24/unparsed"
   | _ => "specfail C24/unparsed"
+
+def verdictWorker (head : Nat) (stored pruned : List Range) (limit : Nat) (os : List String) : String :=
+  if !Lumina.Spec.C17.canonical stored || !Lumina.Spec.C17.canonical pruned then "specskip"
+  else
+    let synced := union pruned stored
+    let obs? : Option Lumina.Spec.C24.WorkerObs := match os with
+      | ["none"] => some .none
+      | ["req", r, ins] =>
+        match parseRange r with
+        | some b => if ins == "insert=ok" then some (.req b true)
+                    else if ins == "insert=err" then some (.req b false) else none
+        | none => none
+      | _ => none
+    match obs? with
+    | none => "specfail C24/worker-unparsed"
+    | some o =>
+      let fs := Lumina.Spec.C24.failingWorker head stored synced limit o
+      if fs.isEmpty then "specok"
+      else match o with
+        | .req b _ => if knownClass head synced b fs then knownMsg
+                      else s!"specfail C24/worker:{"+".intercalate fs} failing clauses: {fs}"
+        | .none => s!"specfail C24/worker:{"+".intercalate fs} failing clauses: {fs}"
 
 def spec (_ : Unit) (op : String) (obs : String) : String :=
   let ws := words op
@@ -81,6 +127,10 @@ def spec (_ : Unit) (op : String) (obs : String) : String :=
     | some h, some st, some pr, some l =>
       if !Lumina.Spec.C17.canonical st || !Lumina.Spec.C17.canonical pr then "specskip"
       else verdict h (union pr st) l (words obs)
+    | _, _, _, _ => "specfail C24/unparsed"
+  | "worker" :: _ =>
+    match natArg? ws "head", rangesArg? ws "stored", rangesArg? ws "pruned", natArg? ws "limit" with
+    | some h, some st, some pr, some l => verdictWorker h st pr l (words obs)
     | _, _, _, _ => "specfail C24/unparsed"
   | _ => "specskip"
 
